@@ -1143,9 +1143,7 @@ func c10GenSeq(r *common.Rand) c10Case {
 			names = append(names, "seq:"+c10PerturbX(r, &v, wf))
 			vals = append(vals, v)
 		}
-		for i, v := range vals {
-			c.Steps = append(c.Steps, c10Enc(names[i], v))
-		}
+		c.Steps = c10RunValueSeq(names, vals)
 		return c
 	}
 	// texts: decode, Marshal, decode again, one after the other
@@ -1181,6 +1179,44 @@ func c10GenSeq(r *common.Rand) c10Case {
 	return c
 }
 
+// c10RunValueSeq: the values are encoded one after the other.  Before that, every value's own MarshalJSON is
+// called directly and the bytes it returned are kept (as a writer that batches its frames keeps them): they
+// must still be the same bytes when all the encoding is done.  A step whose kept bytes changed under it is
+// recorded with the result "corrupt".
+func c10RunValueSeq(names []string, vals []XVal) []c10Case {
+	type kept struct{ live, snap []byte }
+	hold := func(v XVal) (k *kept) {
+		defer func() {
+			if recover() != nil {
+				k = nil
+			}
+		}()
+		m, ok := fromX(v).(json.Marshaler)
+		if !ok {
+			return nil
+		}
+		b, err := m.MarshalJSON()
+		if err != nil {
+			return nil
+		}
+		return &kept{live: b, snap: append([]byte{}, b...)}
+	}
+	ks := make([]*kept, len(vals))
+	for i, v := range vals {
+		ks[i] = hold(v)
+	}
+	var steps []c10Case
+	for i, v := range vals {
+		steps = append(steps, c10Enc(names[i], v))
+	}
+	for i, k := range ks {
+		if k != nil && !bytes.Equal(k.live, k.snap) {
+			steps[i].O1 = &Obs{R: "corrupt"}
+		}
+	}
+	return steps
+}
+
 // c10Isolated: run one replay case in a process of its own (same binary), so
 // that process-wide state of the implementation is shared by the steps of one
 // case and by nothing else
@@ -1213,10 +1249,24 @@ func c10ReplayCase(c c10Case) c10Case {
 	switch c.K {
 	case "seq":
 		out := c10Case{K: "seq", Cls: c.Cls}
+		allEnc := len(c.Steps) > 0
+		var names []string
+		var vals []XVal
 		for _, s := range c.Steps {
 			if s.K == "seq" {
 				common.Fatalf("nested seq case")
 			}
+			if s.K != "enc" || s.V == nil {
+				allEnc = false
+				continue
+			}
+			names, vals = append(names, s.Cls), append(vals, *s.V)
+		}
+		if allEnc {
+			out.Steps = c10RunValueSeq(names, vals)
+			return out
+		}
+		for _, s := range c.Steps {
 			out.Steps = append(out.Steps, c10ReplayCase(s))
 		}
 		return out
